@@ -28,10 +28,10 @@ def run(ctx):
     ctx.sample({"scenario": scns[-1][0], "events": scns[-1][1][-1:]})
     ctx.validate("Trace_OrderedMap", scns, label="container")
     # the state model built on it: new / extend / initial_state / get / set / add by name
-    out = ctx.harness(["state", "--random", "500" if quick else "8000"])
+    out = ctx.harness(["state", "--random", "500" if quick else "8000", "--app", "300" if quick else "5000"])
     sscns = common.split_scenarios(out)
     for s, evs in sscns:
-        if len(s["base"]) + sum(len(e) for e in s["extends"]) >= 5:
+        if s.get("app") or len(s["base"]) + sum(len(e) for e in s["extends"]) >= 5:
             ctx.note_nontrivial(common.chash(s))
     ctx.sample({"scenario": sscns[0][0], "events": [e["ev"] for e in sscns[0][1]]})
     ctx.validate("Trace_StateModel", sscns, label="state model")
